@@ -47,7 +47,7 @@ def strategy(tier):
 
 
 def n_random(tier):
-    return 1600 if tier == "quick" else 80000
+    return 1600 if tier == "quick" else 12000
 
 
 EXTRA_COLLIDE = [["g_x", "float"], ["xs", "str"], ["k_y", "int"]]
